@@ -7,10 +7,12 @@
 
 mod afamily;
 mod build;
+mod cfamily;
 mod dfamily;
 mod driver;
 mod hashseed;
 mod oracle;
+mod pfamily;
 mod plan;
 mod props;
 mod res;
